@@ -14,7 +14,7 @@
    WellFormed(tree): every construct has all the parts the grammar requires. *)
 EXTENDS Integers, Sequences, FiniteSets, TLC, Json
 
-CONSTANTS MaxDev, Globals, Mutate      \* Mutate = TRUE: token-level corruptions (delete / duplicate / swap with neighbour) count as deviations (C05)
+CONSTANTS MaxDev, Globals, Mutate, MinBrace      \* Mutate = TRUE: token-level corruptions (delete / duplicate / swap with neighbour) count as deviations (C05)
 \*       \* Globals: "canon" (4 blanks, LF) | "all" (TAB / 4 blanks x LF / CRLF / CR)
 
 (* ------------------------------------------------------------------ the prescribed tree *)
@@ -109,7 +109,13 @@ Kw(v) == T("kw", v)
 NL(d) == T("nl", ToString(d))
 OpTok(op) == T("op", op)
 RECURSIVE KE(_), KEs(_, _), KDict(_, _), KChain(_)
+\* the documented precedence: * / | %  >  + -  >  comparisons (not associative)  >  且  >  或 ; equal precedence groups left to right.
+\* With MinBrace a compound operand is written WITHOUT braces wherever that table makes them unnecessary (Tree(prog) is unchanged).
+Prec(op) == CASE op \in {"mul", "div", "idiv", "mod"} -> 5 [] op \in {"add", "sub"} -> 4 [] op = "and" -> 2 [] op = "or" -> 1 [] OTHER -> 3
+NeedBrace(parent, child, side) == \/ Prec(child.op) < Prec(parent.op)
+                                  \/ (Prec(child.op) = Prec(parent.op) /\ (side = "r" \/ Prec(parent.op) = 3))
 Operand(e) == IF e.k \in {"bin", "asg", "mcall"} THEN <<T("lc", "")>> \o KE(e) \o <<T("rc", "")>> ELSE KE(e)
+OperandP(parent, child, side) == IF MinBrace /\ child.k = "bin" /\ ~NeedBrace(parent, child, side) THEN KE(child) ELSE Operand(child)
 ArgTok(e) == IF e.k = "mcall" THEN <<T("lc", "")>> \o KE(e) \o <<T("rc", "")>> ELSE KE(e)
 \* expressions separated by sep
 KEs(es, sep) == IF es = <<>> THEN <<>> ELSE IF Len(es) = 1 THEN ArgTok(es[1]) ELSE ArgTok(es[1]) \o <<T(sep, "")>> \o KEs(Tail(es), sep)
@@ -124,7 +130,7 @@ KE(e) ==
     [] e.k = "bool" -> <<T("id", IF e.v THEN "@true" ELSE "@false")>>
     [] e.k = "null" -> <<T("id", "@null")>>
     [] e.k = "var" -> <<T("id", e.n)>>
-    [] e.k = "bin" -> Operand(e.l) \o <<OpTok(e.op)>> \o Operand(e.r)
+    [] e.k = "bin" -> OperandP(e, e.l, "l") \o <<OpTok(e.op)>> \o OperandP(e, e.r, "r")
     [] e.k = "list" -> <<T("lb", "")>> \o KEs(e.items, "comma") \o <<T("rb", "")>>
     [] e.k = "dict" -> <<T("lb", "")>> \o (IF e.keys = <<>> THEN <<T("mapeq", "")>> ELSE KDict(e.keys, e.vals)) \o <<T("rb", "")>>
     [] e.k = "idx" -> Operand(e.e) \o <<T("hash", "")>> \o (IF e.i.k \in {"num", "str"} THEN KE(e.i) ELSE <<T("lc", "")>> \o KE(e.i) \o <<T("rc", "")>>)
